@@ -390,7 +390,7 @@ def run_property(ctx, spec, t_start):
         r = ctx.kani(job["harness"], flags, cap, mem, "run")
         info = classify(prop, job, r)
         need_pb = (job["role"] == "witness" and "WITNESS reached" in info.get("special", [])) or \
-                  (job["role"] in ("hold",) and (info["failed_own"] or info["failed_panic"]) and job.get("replay"))
+                  (job["role"] in ("hold",) and (info["failed_own"] or info["failed_panic"] or info["failed_other"]) and job.get("replay"))
         pb = None
         if need_pb:
             r2 = ctx.kani(job["harness"], flags + PLAYBACK_FLAGS, cap, mem, "playback")
@@ -424,7 +424,8 @@ def run_property(ctx, spec, t_start):
         print("  [%s] %-46s %-9s %6.1fs vars=%d own_failed=%d%s" % (
             job["role"], short(job["harness"]), info["status"], r["wall_s"], r["sat_variables"],
             len(info["failed_own"]), ((" covers_unsat=%d" % len(info["covers_unsat"])) if info["covers_unsat"] else "") +
-            ((" crate_panics=%d" % len(info["failed_panic"])) if info["failed_panic"] else "")),
+            ((" crate_panics=%d" % len(info["failed_panic"])) if info["failed_panic"] else "") +
+            ((" other_oracles=%d" % len(info["failed_other"])) if info["failed_other"] else "")),
             flush=True)
     replayer = replayer_future.result()
     pool.shutdown()
@@ -492,7 +493,8 @@ def run_property(ctx, spec, t_start):
         if role == "step" and info["failed_own"]:
             step_cex.append((name, info["failed_own"]))
             continue
-        if role in ("hold", "witness", "step") and info["failed_panic"] and not info["failed_own"]:
+        foreign = info["failed_panic"] + info["failed_other"]
+        if role in ("hold", "witness", "step") and foreign and not info["failed_own"]:
             # A crate panic (overflow, unwrap, debug assertion) is reachable in this harness. In the build Kani models (dev
             # profile) the operation panics - that is C01's clause. What THIS property's oracle says about the same input is
             # decided by replaying the solver's values natively in the dev and in the release profile (where e.g. arithmetic
@@ -502,7 +504,7 @@ def run_property(ctx, spec, t_start):
             if role == "hold" and job.get("replay"):
                 if release_bin is None:
                     release_bin = ctx.build_replayer(release=True) or False
-                for desc, script in [(d, sc) for d, sc in (pb or []) if d in info["failed_panic"]]:
+                for desc, script in [(d, sc) for d, sc in (pb or []) if d in foreign]:
                     rp = job["replay"]
                     outs = {}
                     for prof, binary in (("dev", replayer), ("release", release_bin)):
@@ -524,8 +526,9 @@ def run_property(ctx, spec, t_start):
                     if hit:
                         break
             if not hit:
-                inconclusive.append("%s: a crate panic is reachable (%s): paths through it are cut off, the property is not decided beyond it "
-                                    "(the panic itself is C01's clause)" % (name, info["failed_panic"][0]))
+                what = "a crate panic is reachable (%s; the panic itself is C01's clause)" % info["failed_panic"][0] if info["failed_panic"] \
+                    else "an oracle of another property fails in this harness (%s)" % info["failed_other"][0]
+                inconclusive.append("%s: %s: paths through it are cut off, %s is not decided beyond it" % (name, what, prop))
             continue
         if role in ("hold", "witness") and info["failed_own"]:
             if not job.get("replay"):
@@ -616,7 +619,7 @@ def write_evidence(ctx, spec, results, samples, t_start, status, violations, val
             if m and ("verif" not in m.group(1)) and (c["loc"].startswith("src/") or "/repo/src" in c["loc"]):
                 functions.add(m.group(1))
         solver_s += r["solver_s"]
-        dec = info["status"] == "decided" and not info["failed_own"] and not info["failed_panic"] and not info["covers_unsat"]
+        dec = info["status"] == "decided" and not info["failed_own"] and not info["failed_panic"] and not info["failed_other"] and not info["covers_unsat"]
         if job["role"] == "witness":
             dec = info["status"] == "decided" and "WITNESS reached" in info.get("special", [])
         if job["role"] == "panic":
